@@ -10,14 +10,19 @@ from ..val import Err
 MANIFEST = {
     "text": "Coq theorems over _dns.py with the sort key, f-strings, rstrip argument and resolve() arguments regenerated from the source: for every non-empty answer list (unbounded) the "
             "selected record is a member with minimal priority and, among those, maximal weight; port/weight/priority copied, target stripped of trailing dots; selection is invariant under "
-            "permutation up to ties; the query name is prefix.domain or the bare prefix; sync and async lookups are the same normalised AST. Tie: kernels + correspondence on all multisets/permutations, both flavours.",
-    "note": "Assumes sorted() stability (first minimiser) and the resolver contract; sync=async is a syntactic comparison backed by running both flavours.",
+            "permutation up to ties; the query name is prefix.domain or the bare prefix; sync and async lookups are the same normalised AST. Tie: kernels + correspondence on all multisets/permutations, both flavours. "
+            "The whole bodies of lookup_dc, async_lookup_dc and _get_highest_answer are regenerated as syntax of the deep embedding and proved equal to the model for every argument "
+            "(C20_flow_*; for _get_highest_answer the translator desugars sorted(answers, key=lambda a: K) into a stable sort on the precomputed keys, and "
+            "C20_sorted_head_is_first_minimiser proves that the head of that sort is the model's first minimiser).",
+    "note": "Assumes that sorted() is a stable sort under Python's tuple order (the world's sorted/key is a stable insertion sort; CPython's is not verified) and the resolver contract; sync=async is a syntactic comparison backed by running both flavours.",
     "technique": "Coq proof (induction over the answer list, lia over regenerated sort key) + exhaustive small-domain correspondence",
 }
 
 ASSUMPTIONS = [
     "dns.resolver.resolve / dns.asyncresolver.resolve return the answer set for the queried name (replaced by a scripted answer in the harness)",
-    "sorted() is stable, so sorted(...)[0] is the first minimiser (modelled as such; validated by the exhaustive permutation sweep)",
+    "sorted() is a stable sort under Python's tuple order (world entry sorted/key = stable insertion sort on the keys the lambda computes; that its head is the first "
+    "minimiser is the theorem C20_sorted_head_is_first_minimiser; CPython's sort itself is validated by the exhaustive permutation sweep only)",
+    "flow.py desugars sorted(<local>, key=lambda p: K) into sorted/key(<local>, [K for p in <local>]): keys computed once per element, in order, before any comparison",
 ]
 RULE = ("all multisets of 1..4 (thorough 1..5) SRV records over priorities {0,1,2} x weights {0,1,2} in every permutation, targets with/without trailing dots, "
         "domain given / empty / None, both API flavours; every case is non-trivial; distinct = distinct case text")
